@@ -8,6 +8,6 @@ CONSTANTS
   RampLens = {10}
   ShiftHalves = {6}
   Elem <- ElemDef
-INVARIANTS NoUnderflow InRange ResultLaw SpearmanLaw EmitComposite
+INVARIANTS PwIsPow NoUnderflow InRange ResultLaw SpearmanLaw EmitComposite
 PROPERTY Terminates
 CHECK_DEADLOCK FALSE
